@@ -17,6 +17,8 @@ import (
 	"github.com/openconfig/grpctunnel/dialer"
 	"github.com/openconfig/grpctunnel/tunnel"
 	"google.golang.org/protobuf/proto"
+	"github.com/openconfig/gnmi/client"
+	gclient "github.com/openconfig/gnmi/client/gnmi"
 	"github.com/openconfig/gnmi/manager"
 	"github.com/openconfig/gnmi/path"
 	"github.com/openconfig/gnmi/subscribe"
@@ -179,4 +181,230 @@ func VerifC01_Collector(h *zz.H) {
 	c01Mgr.Reset("t1")
 	got, _ = c01Once(h, srv, "t1")
 	h.Assert(len(got) == 0, "C01: after the session ends the target's leaves are gone")
+}
+
+// ---------------------------------------------------------------------------------------------
+// VerifC01_Pipeline: target -> collector glue -> cache -> Subscribe server -> gNMI client decode
+// -> client-library cache, in one process. The transport is replaced by handing the protobuf
+// objects over: gnmi.NewGNMIClient returns a client whose Subscribe stream runs the collector's
+// real Subscribe server on the request the real client library built and hands back the
+// responses the server sent.
+
+type c01GNMIClient struct {
+	gnmipb.GNMIClient
+	srv *subscribe.Server
+}
+
+func (c *c01GNMIClient) Subscribe(ctx context.Context, opts ...grpc.CallOption) (gnmipb.GNMI_SubscribeClient, error) {
+	return &c01ClientStream{srv: c.srv}, nil
+}
+
+type c01ClientStream struct {
+	grpc.ClientStream
+	srv   *subscribe.Server
+	resps []*gnmipb.SubscribeResponse
+	pos   int
+	err   error
+}
+
+func (s *c01ClientStream) Send(r *gnmipb.SubscribeRequest) error {
+	st := &c01Stream{req: r}
+	s.err = s.srv.Subscribe(st)
+	s.resps = st.sent
+	return nil
+}
+
+func (s *c01ClientStream) Recv() (*gnmipb.SubscribeResponse, error) {
+	if s.pos < len(s.resps) {
+		s.pos++
+		return s.resps[s.pos-1], nil
+	}
+	if s.err != nil {
+		return nil, s.err
+	}
+	return nil, io.EOF
+}
+
+func Stub_gnmi_NewGNMIClient(cc grpc.ClientConnInterface) gnmipb.GNMIClient {
+	return &c01GNMIClient{srv: c01Server.(*subscribe.Server)}
+}
+
+// c01ClientView subscribes to target through the real client library (CacheClient over the gNMI
+// client implementation) and returns the non-metadata leaves of the client's tree.
+func c01ClientView(h *zz.H, target string) (client.Leaves, error) {
+	client.RegisterTest("pipe", func(ctx context.Context, d client.Destination) (client.Impl, error) {
+		return gclient.NewFromConn(ctx, nil, d)
+	})
+	cc := client.New()
+	err := cc.Subscribe(context.Background(), client.Query{Addrs: []string{"collector"}, Target: target, Type: client.Once, Queries: []client.Path{{"*"}}}, "pipe")
+	var out client.Leaves
+	for _, l := range cc.Leaves() {
+		if len(l.Path) >= 2 && l.Path[1] == "meta" {
+			continue
+		}
+		out = append(out, l)
+	}
+	return out, err
+}
+
+// c01PathOf builds a path in one of the encodings a target may use and returns it with the
+// element strings it denotes.
+func c01PathOf(h *zz.H, name string, minForm int) (*gnmipb.Path, []string) {
+	switch h.Range(name+"_form", minForm, 3) {
+	case 0:
+		return nil, nil
+	case 1: // structured elements, the first optionally keyed
+		p := &gnmipb.Path{}
+		var s []string
+		n := h.Range(name+"_n", 1, h.Param("E", 2))
+		for i := 0; i < n; i++ {
+			a := h.Atom(name + "_name")
+			h.Assume(a != "*")
+			e := &gnmipb.PathElem{Name: a}
+			s = append(s, a)
+			if i == 0 && h.Range(name+"_keyed", 0, 1) == 1 {
+				kv := h.Atom(name + "_keyval")
+				h.Assume(kv != "*")
+				e.Key = map[string]string{"k": kv}
+				s = append(s, kv)
+			}
+			p.Elem = append(p.Elem, e)
+		}
+		return p, s
+	case 2: // deprecated string elements
+		p := &gnmipb.Path{}
+		var s []string
+		n := h.Range(name+"_n", 1, h.Param("E", 2))
+		for i := 0; i < n; i++ {
+			a := h.Atom(name + "_element")
+			h.Assume(a != "*")
+			p.Element = append(p.Element, a)
+			s = append(s, a)
+		}
+		return p, s
+	default: // present but without elements
+		return &gnmipb.Path{}, nil
+	}
+}
+
+func c01Value(h *zz.H) (*gnmipb.TypedValue, func(interface{}) bool) {
+	switch h.Range("arm", 0, 4) {
+	case 0:
+		v := h.Int64("int")
+		return &gnmipb.TypedValue{Value: &gnmipb.TypedValue_IntVal{IntVal: v}}, func(g interface{}) bool { x, ok := g.(int64); return ok && x == v }
+	case 1:
+		v := h.Atom("str")
+		return &gnmipb.TypedValue{Value: &gnmipb.TypedValue_StringVal{StringVal: v}}, func(g interface{}) bool { x, ok := g.(string); return ok && x == v }
+	case 2:
+		v := h.Bool("bool")
+		return &gnmipb.TypedValue{Value: &gnmipb.TypedValue_BoolVal{BoolVal: v}}, func(g interface{}) bool { x, ok := g.(bool); return ok && x == v }
+	case 3:
+		v := h.Uint64("uint")
+		return &gnmipb.TypedValue{Value: &gnmipb.TypedValue_UintVal{UintVal: v}}, func(g interface{}) bool { x, ok := g.(uint64); return ok && x == v }
+	default:
+		a, b := h.Atom("ll0"), h.Int64("ll1")
+		ll := &gnmipb.ScalarArray{Element: []*gnmipb.TypedValue{{Value: &gnmipb.TypedValue_StringVal{StringVal: a}}, {Value: &gnmipb.TypedValue_IntVal{IntVal: b}}}}
+		return &gnmipb.TypedValue{Value: &gnmipb.TypedValue_LeaflistVal{LeaflistVal: ll}}, func(g interface{}) bool {
+			x, ok := g.([]interface{})
+			if !ok || len(x) != 2 {
+				return false
+			}
+			s, ok1 := x[0].(string)
+			i, ok2 := x[1].(int64)
+			return ok1 && ok2 && s == a && i == b
+		}
+	}
+}
+
+func c01SamePath(got client.Path, want []string) bool {
+	ok := len(got) == len(want)
+	if ok {
+		for i := range want {
+			ok = zz.And(ok, got[i] == want[i])
+		}
+	}
+	return ok
+}
+
+// VerifC01_Pipeline: one leaf streamed by a configured target in any encoding, seen through the
+// client library; then deleted (in an encoding chosen independently); then re-sent and the
+// session reset.
+func VerifC01_Pipeline(h *zz.H) {
+	*configFile, *certFile, *keyFile = "cfg", "cert", "key"
+	req := &gnmipb.SubscribeRequest{Request: &gnmipb.SubscribeRequest_Subscribe{Subscribe: &gnmipb.SubscriptionList{}}}
+	c01Config = &tpb.Configuration{
+		Request: map[string]*gnmipb.SubscribeRequest{"r": req},
+		Target:  map[string]*tpb.Target{"t1": {Addresses: []string{"addr1"}, Request: "r"}, "t2": {Addresses: []string{"addr2"}, Request: "r"}},
+	}
+	err := runCollector(context.Background())
+	h.Assert(err != nil && c01Server != nil && c01Mgr.Update != nil, "C01: the collector wires the target manager to the cache and serves the cache")
+
+	// what the target streams
+	origin := ""
+	var prefix *gnmipb.Path
+	var pstr []string
+	if h.Range("has_prefix", 0, 1) == 1 {
+		prefix, pstr = c01PathOf(h, "prefix", 1)
+		prefix.Target = h.Atom("device_says_target")
+		if h.Range("has_origin", 0, 1) == 1 {
+			origin = h.Atom("origin")
+			h.Assume(origin != "meta" && origin != "*" && origin != "")
+			prefix.Origin = origin
+		}
+	}
+	upath, ustr := c01PathOf(h, "upd", 1)
+	h.Assume(len(pstr)+len(ustr) > 0)
+	val, sameVal := c01Value(h)
+	want := []string{"t1", "openconfig"}
+	if origin != "" {
+		want[1] = origin
+	}
+	want = append(append(want, pstr...), ustr...)
+	n := &gnmipb.Notification{Timestamp: 10, Prefix: prefix, Update: []*gnmipb.Update{{Path: upath, Val: val}}}
+
+	c01Mgr.Connect("t1")
+	c01Mgr.Update("t1", n)
+	c01Mgr.Sync("t1")
+	got, err := c01ClientView(h, "t1")
+	h.Assert(err == nil, "C01: a client can subscribe to a configured target through the collector")
+	h.Assert(len(got) == 1, "C01: every leaf the target streams becomes visible to a client of the collector (exactly that leaf)")
+	if len(got) == 1 {
+		h.Assert(c01SamePath(got[0].Path, want), "C01: the client sees the leaf under the same path (target, origin, prefix and path elements, keys, either encoding)")
+		h.Assert(sameVal(got[0].Val), "C01: the client sees the leaf with the same value")
+	}
+	other, _ := c01ClientView(h, "t2")
+	h.Assert(len(other) == 0, "C01: one target's leaves are not shown under another target")
+
+	// the target deletes the leaf: the same element strings, split between prefix and path and
+	// encoded independently of the update
+	all := append(append([]string{}, pstr...), ustr...)
+	cut := h.Range("del_prefix_len", 0, len(all))
+	d := &gnmipb.Notification{Timestamp: 20}
+	mk := func(s []string, deprecated bool) *gnmipb.Path {
+		p := &gnmipb.Path{}
+		for _, e := range s {
+			if deprecated {
+				p.Element = append(p.Element, e)
+			} else {
+				p.Elem = append(p.Elem, &gnmipb.PathElem{Name: e})
+			}
+		}
+		return p
+	}
+	if cut > 0 || origin != "" || h.Range("del_has_prefix", 0, 1) == 1 {
+		d.Prefix = mk(all[:cut], h.Range("del_prefix_deprecated", 0, 1) == 1)
+		d.Prefix.Origin = origin
+	}
+	d.Delete = []*gnmipb.Path{mk(all[cut:], h.Range("del_path_deprecated", 0, 1) == 1)}
+	c01Mgr.Update("t1", d)
+	got, _ = c01ClientView(h, "t1")
+	h.Assert(len(got) == 0, "C01: every delete the target streams removes the leaf from the client's view")
+
+	// re-sent, then the session ends
+	c01Mgr.Update("t1", &gnmipb.Notification{Timestamp: 30, Prefix: prefix, Update: []*gnmipb.Update{{Path: upath, Val: val}}})
+	got, _ = c01ClientView(h, "t1")
+	h.Assert(len(got) == 1, "C01: a leaf streamed again after its delete is visible again")
+	c01Mgr.Reset("t1")
+	got, _ = c01ClientView(h, "t1")
+	h.Assert(len(got) == 0, "C01: after the session ends the target's leaves are gone from the client's view")
 }
